@@ -428,6 +428,8 @@ func (s *c01Sink) Write(p []byte) (int, error) {
 // ---------------------------------------------------------------------------------
 // the class of histories of finding "c01-two-size-updates-rejected"
 
+const c01KnownKey = "c01-two-size-updates-rejected"
+
 // c01DoubleUpdateOnNonEmptyTable reports whether, in history c, the first field of some
 // block is preceded by TWO dynamic table size updates (the smallest size set through
 // SetMaxDynamicTableSize since the last update, then the final size — the signalling
